@@ -91,6 +91,7 @@ pub struct Scratch {
 impl Scratch {
     /// A fresh, empty directory unique to this process (pid taken at call time: we run in a forked child).
     pub fn new() -> Scratch {
+        sweep_stale_scratch();
         let dir = PathBuf::from(format!("/dev/shm/zverif/c15-{}", std::process::id()));
         let _ = std::fs::remove_dir_all(&dir);
         std::fs::create_dir_all(&dir).expect("create c15 scratch dir");
@@ -100,6 +101,24 @@ impl Scratch {
         let p = self.dir.join(name);
         std::fs::write(&p, bytes).expect("write c15 scratch file");
         p
+    }
+}
+
+/// A case that aborts its process cannot remove its directory.  Once per process: delete the `c15-<pid>`
+/// directories whose process no longer exists.
+fn sweep_stale_scratch() {
+    use std::sync::atomic::{AtomicBool, Ordering};
+    static DONE: AtomicBool = AtomicBool::new(false);
+    if DONE.swap(true, Ordering::Relaxed) {
+        return;
+    }
+    let Ok(rd) = std::fs::read_dir("/dev/shm/zverif") else { return };
+    for e in rd.flatten() {
+        let name = e.file_name();
+        let Some(pid) = name.to_str().and_then(|n| n.strip_prefix("c15-")).and_then(|p| p.parse::<u32>().ok()) else { continue };
+        if pid != std::process::id() && !Path::new(&format!("/proc/{pid}")).exists() {
+            let _ = std::fs::remove_dir_all(e.path());
+        }
     }
 }
 
@@ -143,10 +162,13 @@ pub const BOMB_HEADROOM_MIB: u64 = 128;
 /// recorded witnesses in every shard affordable.  It cannot hide anything: a single allocation above
 /// 64*(input+expected)+1 MiB (~1 MiB for these inputs) is a violation already, two orders of magnitude
 /// below the head-room.  Only called from `parse` functions, i.e. inside the engine's child.
+/// set by the seed-dump mode, which runs every parser in ONE process
+pub static NO_AS_LIMIT: std::sync::atomic::AtomicBool = std::sync::atomic::AtomicBool::new(false);
+
 pub fn limit_address_space() {
     use std::sync::atomic::{AtomicBool, Ordering};
     static DONE: AtomicBool = AtomicBool::new(false);
-    if DONE.swap(true, Ordering::Relaxed) {
+    if NO_AS_LIMIT.load(Ordering::Relaxed) || DONE.swap(true, Ordering::Relaxed) {
         return;
     }
     let vm_kib = std::fs::read_to_string("/proc/self/status")
